@@ -346,7 +346,7 @@ impl<T: ClusterKey> TopologyManager<T> {
         }
 
         // If the node wasn't active before, mark it active now
-        if let Some((_existing_alive_since, existing_index)) = self.active_nodes.get(&peer_id) {
+        if let Some((existing_alive_since, existing_index)) = self.active_nodes.get(&peer_id) {
             if *existing_index != node_index {
                 warn!(
                     "node {peer_id} changed index from {} to {}",
@@ -354,6 +354,12 @@ impl<T: ClusterKey> TopologyManager<T> {
                 );
                 self.active_nodes.insert(peer_id, (alive_since, node_index));
                 self.recalculate_partition_assignments();
+                status_changed = true;
+            } else if *existing_alive_since != alive_since {
+                // The node restarted, or we learnt an outdated value second-hand from an
+                // ownership response. Its own heartbeat is authoritative: the coordinator order
+                // depends on alive_since and must be the same on every node.
+                self.active_nodes.insert(peer_id, (alive_since, node_index));
                 status_changed = true;
             }
         } else {
